@@ -67,9 +67,17 @@ def gen_case(rng, k, force_n=None):
         lines += ["# Data from pdb2pqr verif", "# comment line with origin delta words", "#"]
     lines.append(f"object 1 class gridpositions counts {nx} {ny} {nz}")
     lines.append(f"origin {org[0]} {org[1]} {org[2]}")
-    lines.append(f"delta {h[0]} 0.000000e+00 0.000000e+00")
-    lines.append(f"delta 0.000000e+00 {h[1]} 0.000000e+00")
-    lines.append(f"delta 0.000000e+00 0.000000e+00 {h[2]}")
+    # the three DX delta VECTORS: axis-aligned (APBS output) or a general sheared / rotated cell,
+    # i.e. a non-symmetric 3x3 matrix whose rows must reach the cube's three axis lines unchanged
+    z0 = "0.000000e+00"
+    dmat = [[h[0], z0, z0], [z0, h[1], z0], [z0, z0, h[2]]]
+    if rng.random() < 0.4:
+        for i in range(3):
+            for j in range(3):
+                if i != j and rng.random() < 0.7:
+                    dmat[i][j] = f"{rng.uniform(-0.9, 0.9):.6e}"
+    for row in dmat:
+        lines.append(f"delta {row[0]} {row[1]} {row[2]}")
     lines.append(f"object 2 class gridconnections counts {nx} {ny} {nz}")
     lines.append(f"object 3 class array type double rank 0 items {n} data follows")
     i = 0
@@ -106,7 +114,7 @@ def gen_case(rng, k, force_n=None):
     for a in range(natoms):
         atoms.append((rng.choice([a + 1, 9999, 10000, 123456]), f"{rng.uniform(-1, 1):.4f}", f"{rng.uniform(-99, 99):.3f}", f"{rng.uniform(-99, 99):.3f}", f"{rng.uniform(-9999, 9999):.3f}"))
     comment = rng.choice(["CPMD CUBE FILE.", "x", "a b  c"])
-    return {"lines": lines, "atoms": atoms, "comment": comment, "n": n, "mal": mal, "vals": vals, "counts": (nx, ny, nz), "org": org, "h": h, "per": per}
+    return {"lines": lines, "atoms": atoms, "comment": comment, "n": n, "mal": mal, "vals": vals, "counts": (nx, ny, nz), "org": org, "h": h, "dmat": dmat, "per": per}
 
 
 def impl_run(case):
@@ -169,9 +177,9 @@ def oracle(case, out):
             if int(w[0]) != -cnt:
                 return f"count[{i}] not negated/equal"
             for j in range(3):
-                exp = float(case["h"][i]) if i == j else 0.0
+                exp = float(case["dmat"][i][j])
                 if abs(float(w[1 + j]) - exp) > 5.1e-7:
-                    return "spacing"
+                    return "spacing" if i == j else "axis-vector-component"
         na = len(case["atoms"])
         for i, (s, q, x, y, z) in enumerate(case["atoms"]):
             w = L[6 + i].split()
@@ -281,7 +289,7 @@ def run(ctx):
         ctx.evaluated((c["n"] % 6, c["n"] <= 6, c["per"], len(c["atoms"])), nontrivial)
         why = oracle(c, iout)
         if why:
-            ctx.fail({"site": "io.write_cube/read_dx", "condition": why.split()[0]}, f"cube does not preserve DX: {why}", {"lines": c["lines"], "atoms": c["atoms"], "comment": c["comment"], "counts": c["counts"], "vals": c["vals"], "org": c["org"], "h": c["h"], "mal": None, "n": c["n"], "per": c["per"], "observed": iout[:2000]})
+            ctx.fail({"site": "io.write_cube/read_dx", "condition": why.split()[0]}, f"cube does not preserve DX: {why}", {"lines": c["lines"], "atoms": c["atoms"], "comment": c["comment"], "counts": c["counts"], "vals": c["vals"], "org": c["org"], "h": c["h"], "dmat": c["dmat"], "mal": None, "n": c["n"], "per": c["per"], "observed": iout[:2000]})
     entry_point_check(ctx)
     c0 = cases[7]
     ctx.sample({"dx_lines": c0["lines"][:14], "atoms": c0["atoms"], "impl_output_head": impl[7][0][:300]})
